@@ -894,6 +894,9 @@ impl FatVolume {
     where
         D: BlockDevice,
     {
+        // A volume label may carry the same 11 bytes as a file or directory.
+        // It is only the answer if nothing else in the directory has the name.
+        let mut label = None;
         match &self.fat_specific_info {
             FatSpecificInfo::Fat16(fat16_info) => {
                 // Root directories on FAT16 have a fixed size, because they use
@@ -921,6 +924,7 @@ impl FatVolume {
                             FatType::Fat16,
                             match_name,
                             block,
+                            &mut label,
                             Self::fat16_slots_in_block(
                                 fat16_info.root_entries_count,
                                 dir_info.cluster,
@@ -929,7 +933,7 @@ impl FatVolume {
                             ),
                         ) {
                             Err(Error::NotFound) => continue,
-                            Err(Error::EndOfFile) => return Err(Error::NotFound),
+                            Err(Error::EndOfFile) => return label.ok_or(Error::NotFound),
                             x => return x,
                         }
                     }
@@ -946,7 +950,7 @@ impl FatVolume {
                         current_cluster = None;
                     }
                 }
-                Err(Error::NotFound)
+                label.ok_or(Error::NotFound)
             }
             FatSpecificInfo::Fat32(fat32_info) => {
                 let mut current_cluster = match dir_info.cluster {
@@ -961,10 +965,11 @@ impl FatVolume {
                             FatType::Fat32,
                             match_name,
                             block,
+                            &mut label,
                             usize::MAX,
                         ) {
                             Err(Error::NotFound) => continue,
-                            Err(Error::EndOfFile) => return Err(Error::NotFound),
+                            Err(Error::EndOfFile) => return label.ok_or(Error::NotFound),
                             x => return x,
                         }
                     }
@@ -974,18 +979,20 @@ impl FatVolume {
                         Err(e) => return Err(e),
                     }
                 }
-                Err(Error::NotFound)
+                label.ok_or(Error::NotFound)
             }
         }
     }
 
-    /// Finds an entry in a given block of directory entries.
+    /// Finds an entry in a given block of directory entries. A volume label
+    /// of that name is not returned but remembered in `label`.
     fn find_entry_in_block<D>(
         &self,
         block_cache: &mut BlockCache<D>,
         fat_type: FatType,
         match_name: &ShortFileName,
         block_idx: BlockIdx,
+        label: &mut Option<DirEntry>,
         slots: usize,
     ) -> Result<DirEntry, Error<D::Error>>
     where
@@ -1006,7 +1013,12 @@ impl FatVolume {
                 // Found it
                 // Block::LEN always fits on a u32
                 let start = (i * OnDiskDirEntry::LEN) as u32;
-                return Ok(dir_entry.get_entry(fat_type, block_idx, start));
+                let entry = dir_entry.get_entry(fat_type, block_idx, start);
+                if !entry.attributes.is_volume() {
+                    return Ok(entry);
+                }
+                // a volume label: keep looking for a file or directory
+                label.get_or_insert(entry);
             }
         }
         Err(Error::NotFound)
@@ -1161,7 +1173,11 @@ impl FatVolume {
             if dir_entry.is_end() {
                 // Nothing behind the end marker belongs to the directory
                 return Err(Error::EndOfFile);
-            } else if dir_entry.is_valid() && !dir_entry.is_lfn() && dir_entry.matches(match_name) {
+            } else if dir_entry.is_valid()
+                && !dir_entry.is_lfn()
+                && !Attributes::create_from_fat(dir_entry.raw_attr()).is_volume()
+                && dir_entry.matches(match_name)
+            {
                 let start = i * OnDiskDirEntry::LEN;
                 // set first byte to the 'unused' marker
                 block[start] = 0xE5;
